@@ -59,8 +59,33 @@ type Case struct {
 	// replaced by a link to another outside directory in the middle of one
 	// Opener's / one Transmit's lifetime (after a first file below it was
 	// opened), and a path that only exists behind the link is requested next.
-	Late string `json:"late,omitempty"` // "", opener, transmit
+	// "transition": the swap happens in the middle of one core.Transition
+	// call (when its first staged file is requested), at a directory two
+	// levels above the paths the following changes of the same call name.
+	Late string `json:"late,omitempty"` // "", opener, transmit, transition
 }
+
+// lateProvider hands out freshly staged files and performs the swap when the
+// first one is requested.
+type lateProvider struct {
+	dir   string
+	swap  func()
+	calls int
+}
+
+func (p *lateProvider) Provide(path string, digest []byte) (string, error) {
+	if p.calls == 0 {
+		p.swap()
+	}
+	p.calls++
+	name := filepath.Join(p.dir, fmt.Sprintf("staged%d", p.calls))
+	if err := os.WriteFile(name, lateContent, 0o600); err != nil {
+		return "", err
+	}
+	return name, nil
+}
+
+var lateContent = []byte("content staged for the transition")
 
 type watcher struct {
 	fd     int
@@ -183,6 +208,12 @@ func judgeLate(c *Case, dir string) (violation string, nontrivial bool, classes 
 	secret := []byte("SECRET content outside the root")
 	os.WriteFile(filepath.Join(other, "fresh"), secret, 0o644)
 	os.WriteFile(filepath.Join(other, "present"), secret, 0o644)
+	if c.Late == "transition" {
+		os.MkdirAll(filepath.Join(victimFull, "inner"), 0o755)
+		os.WriteFile(filepath.Join(victimFull, "inner", "present"), secret, 0o644)
+		os.MkdirAll(filepath.Join(other, "inner"), 0o755)
+		os.WriteFile(filepath.Join(other, "inner", "present"), secret, 0o644)
+	}
 	defer disk.MakeWritable(dir)
 	before, _ := disk.Observe(outside)
 	w, err := newWatcher(dirsOf(outside))
@@ -227,6 +258,31 @@ func judgeLate(c *Case, dir string) (violation string, nontrivial bool, classes 
 				leaked, detail = true, "rsync.Transmit sent outside content"
 			}
 		}
+	case "transition":
+		// The changes of one call share the parent victim/inner; the outside
+		// directory the link leads to has an "inner" as well.
+		ignorer, _ := mutagenignore.NewIgnorer(nil)
+		snap, cache, _, err := core.Scan(context.Background(), root, nil, nil, sha1.New(), nil, ignorer, nil,
+			behavior.ProbeMode_ProbeModeProbe, core.SymbolicLinkMode_SymbolicLinkModePortable, core.PermissionsMode_PermissionsModePortable)
+		if err != nil {
+			return "", false, nil
+		}
+		staging := filepath.Join(dir, "staging")
+		os.MkdirAll(staging, 0o700)
+		digest := sha1.Sum(lateContent)
+		file := &core.Entry{Kind: core.EntryKind_File, Digest: digest[:]}
+		inner := victimRel + "/inner"
+		changes := []*core.Change{
+			{Path: inner + "/first", New: file},
+			{Path: inner + "/second", New: file},
+			{Path: inner + "/present", Old: tree.At(snap.Content, inner+"/present")},
+			{Path: inner + "/newdir", New: tree.D(map[string]*core.Entry{"f": file})},
+			{Path: inner + "/newlink", New: tree.L("present")},
+			{Path: inner + "/third", New: file},
+		}
+		core.Transition(context.Background(), root, changes, cache,
+			core.SymbolicLinkMode_SymbolicLinkModePortable, 0o600, 0o700, nil, false,
+			&lateProvider{dir: staging, swap: swap})
 	default:
 		return "", false, nil
 	}
@@ -428,8 +484,8 @@ func judge(c *Case, dir string) (violation string, nontrivial bool, classes []st
 func drawCase(rt *rapid.T) *Case {
 	g := disk.Gen{MaxDepth: 2, MaxFan: 4, Names: []string{"a", "b", "c", "sub"}, Links: false}
 	c := &Case{Swap: rapid.IntRange(0, 3).Draw(rt, "swap") > 0, Absolute: rapid.Bool().Draw(rt, "absolute")}
-	if rapid.IntRange(0, 5).Draw(rt, "late") == 0 {
-		c.Late = rapid.SampledFrom([]string{"opener", "transmit"}).Draw(rt, "late.kind")
+	if rapid.IntRange(0, 4).Draw(rt, "late") == 0 {
+		c.Late = rapid.SampledFrom([]string{"opener", "transmit", "transition", "transition"}).Draw(rt, "late.kind")
 		for n := rapid.IntRange(0, 2).Draw(rt, "prefix"); n > 0; n-- {
 			c.Prefix = append(c.Prefix, rapid.SampledFrom([]string{"p", "q"}).Draw(rt, "prefix.name"))
 		}
@@ -492,7 +548,7 @@ func TestEscape(t *testing.T) {
 	rec := ev.New(t, prop, "moved-outside-and-linked", "rapid: a directory or file at depth 0-2 of a random root is moved outside the root and replaced by a (relative or absolute) symbolic link to its new place, after the scan (3 of 4 cases; all recorded metadata still matches) or before it; then 1-5 operations on paths at or below the link: transitions (delete, create file, create directory, swap content, chmod), rsync.Transmit, an rsync receiver with a block operation on that base, Opener.OpenFile, scans in all three symlink modes; raw inotify (IN_ALL_EVENTS) on every outside directory must stay silent, the outside tree must be identical (lstat identity walk) and the operation must fail; non-trivial: >= 1 operation on a path crossing the link")
 	base := t.TempDir()
 	n := 0
-	ev.Check(t, rec, 400, 15000, func(rt *rapid.T) {
+	ev.Check(t, rec, 1500, 20000, func(rt *rapid.T) {
 		c := drawCase(rt)
 		n++
 		dir := filepath.Join(base, fmt.Sprintf("c%d", n))
